@@ -17,6 +17,8 @@ use zipora::io::{DataInput, DataOutput};
 
 type R<T> = Result<T, String>;
 fn es(e: zipora::ZiporaError) -> String { e.to_string() }
+/// Debug text of a value, cut to a readable length (collections of the big families have tens of thousands of elements).
+fn short<T: Debug>(v: &T) -> String { let d = format!("{:?}", v); if d.len() > 240 { format!("{}... ({} characters)", d.chars().take(240).collect::<String>(), d.len()) } else { d } }
 
 /// decode `bytes ++ tail` with `dec`, demanding the value back and exactly |bytes| consumed,
 /// over a slice input, a std::io reader and a reader that returns short reads.
@@ -27,12 +29,12 @@ fn check_dec<T: PartialEq + Debug>(what: &str, bytes: &[u8], tail: &[u8], v: &T,
     all.extend_from_slice(tail);
     let mut i = SliceDataInput::new(&all);
     let g = dec_s(&mut i).map_err(|e| format!("{}: decode failed: {}", what, e))?;
-    if &g != v { return Err(format!("{}: decoded {:?}, want {:?}", what, g, v)); }
+    if &g != v { return Err(format!("{}: decoded {}, want {}", what, short(&g), short(v))); }
     if i.pos() != bytes.len() { return Err(format!("{}: consumed {} bytes, the encoder produced {}", what, i.pos(), bytes.len())); }
     for k in [1usize, 3, 1 << 20] {
         let mut i = ReaderDataInput::new(Chunky { inner: Cursor::new(all.clone()), k });
         let g = dec_r(&mut i).map_err(|e| format!("{}: decode over a reader failed: {}", what, e))?;
-        if &g != v { return Err(format!("{}: decoded {:?} over a reader, want {:?}", what, g, v)); }
+        if &g != v { return Err(format!("{}: decoded {} over a reader, want {}", what, short(&g), short(v))); }
         if i.pos() != bytes.len() as u64 { return Err(format!("{}: consumed {} bytes over a reader, the encoder produced {}", what, i.pos(), bytes.len())); }
     }
     Ok(())
@@ -52,19 +54,22 @@ fn complex_rt<T: ComplexSerialize + PartialEq + Debug>(mk: &dyn Fn() -> T, tail:
     let mut o = VecDataOutput::new();
     v.serialize_data(&mut o).map_err(es)?;
     v.serialize_with_metadata(&mut o).map_err(es)?;
-    v.serialize_nested(&mut o, 0).map_err(es)?;
+    v.serialize_nested(&mut o, if tail.is_empty() { 0 } else { 1000 }).map_err(es)?;
     let total = o.len();
     let mut all = o.into_vec();
     all.extend_from_slice(tail);
     let mut i = SliceDataInput::new(&all);
     let a = T::deserialize_with_version(&mut i, T::version()).map_err(|e| format!("concatenation, 1st: {}", e))?;
     let b = T::deserialize_with_metadata(&mut i).map_err(|e| format!("concatenation, 2nd: {}", e))?;
-    let c = T::deserialize_nested(&mut i, 0).map_err(|e| format!("concatenation, 3rd: {}", e))?;
+    let c = T::deserialize_nested(&mut i, if tail.is_empty() { 0 } else { 1000 }).map_err(|e| format!("concatenation, 3rd: {}", e))?;
     if a != v || b != v || c != v { return Err(format!("concatenation read back as {:?} / {:?} / {:?}", a, b, c)); }
     if i.pos() != total { return Err(format!("concatenation consumed {} of {} bytes", i.pos(), total)); }
     // the high-level serializer, every configuration
-    for (n, cfg) in [ComplexTypeConfig::new(), ComplexTypeConfig::safe(), ComplexTypeConfig::fast(), ComplexTypeConfig::compact(), ComplexTypeConfig::compatible()].into_iter().enumerate() {
-        let s = ComplexTypeSerializer::new(cfg);
+    // the presets, the Default, and every combination of the four public option fields
+    let mut cfgs = vec![ComplexTypeConfig::new(), ComplexTypeConfig::safe(), ComplexTypeConfig::fast(), ComplexTypeConfig::compact(), ComplexTypeConfig::compatible(), ComplexTypeConfig::default()];
+    if tail.len() % 2 == 1 { for b in 0..16u8 { cfgs.push(ComplexTypeConfig { include_metadata: b & 1 != 0, validate_types: b & 2 != 0, allow_version_skew: b & 4 != 0, space_optimized: b & 8 != 0 }); } }
+    for (n, cfg) in cfgs.into_iter().enumerate() {
+        let s = if n == 5 { ComplexTypeSerializer::default() } else { ComplexTypeSerializer::new(cfg) };
         let by = s.serialize_to_bytes(&v).map_err(es)?;
         let mut w = by.clone();
         w.extend_from_slice(tail);
@@ -82,7 +87,7 @@ fn complex_rt<T: ComplexSerialize + PartialEq + Debug>(mk: &dyn Fn() -> T, tail:
     Ok(())
 }
 
-fn stype_rt<T: SerializableType + PartialEq + Debug>(v: &T, tail: &[u8]) -> R<()> {
+pub fn stype_rt<T: SerializableType + PartialEq + Debug>(v: &T, tail: &[u8]) -> R<()> {
     let mut o = VecDataOutput::new();
     v.serialize(&mut o).map_err(es)?;
     let b = o.into_vec();
@@ -92,12 +97,23 @@ fn stype_rt<T: SerializableType + PartialEq + Debug>(v: &T, tail: &[u8]) -> R<()
 fn geti(ints: &[u64], i: usize) -> u64 { ints.get(i).copied().unwrap_or(0) }
 fn gets(ss: &[String], i: usize) -> String { ss.get(i).cloned().unwrap_or_default() }
 
-pub const N_COMPLEX: usize = 22;
+/// A struct serialised through the library's `impl_complex_serialize!` macro.
+mod macro_struct {
+    use zipora::error::Result;
+    use zipora::io::complex_types::ComplexSerialize;
+    use zipora::io::smart_ptr::SerializableType;
+    use zipora::io::{DataInput, DataOutput};
+    #[derive(Debug, PartialEq, Clone)]
+    pub struct MRec { pub a: u32, pub b: String, pub c: Vec<u16>, pub d: Option<i64> }
+    zipora::impl_complex_serialize!(MRec { a: u32, b: String, c: Vec<u16>, d: Option<i64> });
+}
+pub const N_COMPLEX: usize = 30;
 pub fn complex(cx: &mut Ctx, kind: usize, ints: &[u64], ss: &[String], tail: &[u8]) {
     let kind = kind % N_COMPLEX;
     let names = ["tuple4", "option_u64", "vec_u32", "vec_string", "hashmap_u32_string", "btreemap_string_u64", "hashset_u16", "btreeset_i64",
         "result_u32_string", "array3_u16", "option_vec_option_string", "tuple_string_i32_bool", "vec_vec_u8", "tuple12", "unit", "tuple1_string",
-        "option_string", "hashmap_string_vec_u64", "option_option_u8", "array0_u32", "result_err_vec", "btreemap_u8_option_i16"];
+        "option_string", "hashmap_string_vec_u64", "option_option_u8", "array0_u32", "result_err_vec", "btreemap_u8_option_i16",
+        "macro_struct", "array2_string", "array32_u8", "tuple_signed", "vec_bool_vec_i8", "hashset_string", "nested_pointers", "array1_option_bool"];
     let cell = format!("complex/{}", names[kind]);
     let cj = json!({"cell": "complex", "kind": kind, "ints": ds(ints), "strs": ss, "tail": tail});
     if !cx.gate(&cj) { return; }
@@ -130,7 +146,15 @@ pub fn complex(cx: &mut Ctx, kind: usize, ints: &[u64], ss: &[String], tail: &[u
             18 => { let v: Option<Option<u8>> = match ints.len() { 0 => None, 1 => Some(None), _ => Some(Some(i(1) as u8)) }; stype_rt(&v, tail)?; complex_rt(&|| v, tail) }
             19 => complex_rt(&|| -> [u32; 0] { [] }, tail),
             20 => complex_rt(&|| -> Result<String, Vec<u32>> { if ss.is_empty() { Err(ints.iter().map(|&x| x as u32).collect()) } else { Ok(s(0)) } }, tail),
-            _ => { let v: BTreeMap<u8, Option<i16>> = ints.iter().map(|&x| (x as u8, if x % 5 == 0 { None } else { Some((x >> 8) as i16) })).collect(); stype_rt(&v, tail)?; complex_rt(&|| v.clone(), tail) }
+            21 => { let v: BTreeMap<u8, Option<i16>> = ints.iter().map(|&x| (x as u8, if x % 5 == 0 { None } else { Some((x >> 8) as i16) })).collect(); stype_rt(&v, tail)?; complex_rt(&|| v.clone(), tail) }
+            22 => complex_rt(&|| macro_struct::MRec { a: i(0) as u32, b: s(0), c: ints.iter().map(|&x| x as u16).collect(), d: if ints.len() % 2 == 0 { None } else { Some(i(1) as i64) } }, tail),
+            23 => complex_rt(&|| [s(0), s(1)], tail),
+            24 => complex_rt(&|| { let mut a = [0u8; 32]; for (k, x) in a.iter_mut().enumerate() { *x = (i(k % ints.len().max(1)) >> (k % 8)) as u8; } a }, tail),
+            25 => complex_rt(&|| (i(0) as i8, i(1) as i16, i(2) as i32, i(3) as i64, i64::MIN, i8::MIN, -1i16, i32::MIN), tail),
+            26 => complex_rt(&|| (ints.iter().map(|&x| x % 2 == 1).collect::<Vec<bool>>(), ints.iter().map(|&x| x as i8).collect::<Vec<i8>>()), tail),
+            27 => { let v: HashSet<String> = ss.iter().cloned().collect(); stype_rt(&v, tail)?; complex_rt(&|| v.clone(), tail) }
+            28 => complex_rt(&|| (Box::new(Box::new(i(0))), Rc::new(ss.iter().map(|x| Rc::new(x.clone())).collect::<Vec<Rc<String>>>()), Arc::new(if ints.is_empty() { None } else { Some(Box::new(i(0) as u32)) })), tail),
+            _ => complex_rt(&|| [if ints.is_empty() { None } else { Some(i(0) % 2 == 1) }], tail),
         }
     });
     match r {
@@ -164,8 +188,10 @@ where T: SerializableType, P: SmartPtrSerialize<T> {
     if i.pos() != b.len() { return Err(format!("{}: consumed {} bytes, the encoder produced {}", what, i.pos(), b.len())); }
     if !same(&g, p) { return Err(format!("{}: decoded value differs", what)); }
     // high-level serializer, every configuration
-    for (n, cfg) in [SmartPtrConfig::new(), SmartPtrConfig::performance_optimized(), SmartPtrConfig::space_optimized(), SmartPtrConfig::robust()].into_iter().enumerate() {
-        let s = SmartPtrSerializer::new(cfg);
+    let mut cfgs = vec![SmartPtrConfig::new(), SmartPtrConfig::performance_optimized(), SmartPtrConfig::space_optimized(), SmartPtrConfig::robust(), SmartPtrConfig::default()];
+    for b in 0..4u8 { cfgs.push(SmartPtrConfig { cycle_detection: b & 1 != 0, max_depth: [0usize, 1, usize::MAX][(b as usize + tail.len()) % 3], compress_ids: b & 2 != 0 }); }
+    for (n, cfg) in cfgs.into_iter().enumerate() {
+        let s = if n == 4 { SmartPtrSerializer::default() } else { SmartPtrSerializer::new(cfg) };
         let by = s.serialize_to_bytes::<T, P>(p).map_err(es)?;
         let mut w = by.clone();
         w.extend_from_slice(tail);
@@ -176,7 +202,7 @@ where T: SerializableType, P: SmartPtrSerialize<T> {
 }
 
 pub fn smart_ptr(cx: &mut Ctx, kind: usize, ints: &[u64], ss: &[String], tail: &[u8]) {
-    let names = ["box", "option_box", "rc", "arc", "weak_rc", "weak_arc", "shared_rc_context", "shared_arc_context", "bridges"];
+    let names = ["box", "option_box", "rc", "arc", "weak_rc", "weak_arc", "shared_rc_context", "shared_arc_context", "bridges", "context_reuse", "context_after_free", "nested"];
     let kind = kind % names.len();
     let cell = format!("smart_ptr/{}", names[kind]);
     let cj = json!({"cell": "smart_ptr", "kind": kind, "ints": ds(ints), "strs": ss, "tail": tail});
@@ -264,6 +290,86 @@ pub fn smart_ptr(cx: &mut Ctx, kind: usize, ints: &[u64], ss: &[String], tail: &
                 }
                 Ok(())
             }
+            9 => {
+                // one serialisation context for two messages with clear() in between; the decoder's context cleared (or a new one) likewise.
+                // After clear() every pointer is written in full again, so the second message stands on its own.
+                let pool_n = 1 + ss.len().min(4);
+                let pool: Vec<Rc<String>> = (0..pool_n).map(|k| Rc::new(s(k))).collect();
+                let seq: Vec<Rc<String>> = ints.iter().map(|&x| pool[(x as usize) % pool_n].clone()).collect();
+                let cut = seq.len() / 2;
+                for detect in [true, false] {
+                    let mut ctx = match (detect, ints.len() % 2) { (true, 0) => SerializationContext::new(), (true, _) => SerializationContext::default(), _ => SerializationContext::without_cycle_detection() };
+                    let mut o = VecDataOutput::new();
+                    let mut ends = vec![];
+                    for p in &seq[..cut] { p.serialize_with_context(&mut o, &mut ctx).map_err(es)?; ends.push(o.len()); }
+                    let first_len = o.len();
+                    ctx.clear();
+                    for p in &seq[cut..] { p.serialize_with_context(&mut o, &mut ctx).map_err(es)?; ends.push(o.len()); }
+                    let mut all = o.into_vec();
+                    // the second message alone must decode with a fresh context
+                    let second = all[first_len..].to_vec();
+                    all.extend_from_slice(tail);
+                    let mut inp = SliceDataInput::new(&all);
+                    let mut dctx: DeserializationContext<Rc<String>> = if ints.len() % 2 == 0 { DeserializationContext::new() } else { DeserializationContext::default() };
+                    for (k, p) in seq.iter().enumerate() {
+                        if k == cut { dctx.clear(); if dctx.get_object(1).is_some() { return Err("DeserializationContext::clear() kept an object".into()); } }
+                        let g = Rc::<String>::deserialize_with_context(&mut inp, &mut dctx).map_err(|e| format!("pointer {} (detect={}): {}", k, detect, e))?;
+                        if &g != p { return Err(format!("pointer {} decoded as {:?}, want {:?}", k, g, p)); }
+                        if inp.pos() != ends[k] { return Err(format!("pointer {} ends at {}, its encoding ended at {}", k, inp.pos(), ends[k])); }
+                    }
+                    // whatever the decoder's context hands out is one of the pointers it decoded since clear() (which ids it uses is its business)
+                    let decoded_second: Vec<Rc<String>> = seq[cut..].to_vec();
+                    for id in 0..(seq.len() as u32 + 3) {
+                        if let Some(g) = dctx.get_object(id) { if !decoded_second.iter().any(|p| p == g) { return Err(format!("get_object({}) = {:?}, which was not decoded since clear()", id, g)); } }
+                    }
+                    dctx.store_object(4_000_000_000, Rc::new("stored by hand".to_string()));
+                    if dctx.get_object(4_000_000_000).map(|x| x.as_str()) != Some("stored by hand") { return Err("store_object / get_object".into()); }
+                    let mut inp = SliceDataInput::new(&second);
+                    let mut d2 = DeserializationContext::new();
+                    d2.store_object(999, Rc::new("unrelated".to_string()));
+                    for (k, p) in seq[cut..].iter().enumerate() {
+                        let g = Rc::<String>::deserialize_with_context(&mut inp, &mut d2).map_err(|e| format!("second message, pointer {} (detect={}): {}", k, detect, e))?;
+                        if &g != p { return Err(format!("second message: pointer {} decoded as {:?}, want {:?}", k, g, p)); }
+                    }
+                    if inp.pos() != second.len() { return Err("second message length".into()); }
+                }
+                Ok(())
+            }
+            10 => {
+                // pointers that are created, written through one context and dropped, one after the other (a loop over temporaries).
+                // Without cycle detection nothing is remembered, so this must work; with it the context remembers addresses only.
+                let vals: Vec<String> = (0..ints.len().max(2)).map(|k| format!("{}#{}", s(k), i(k))).collect();
+                for detect in [false, true] {
+                    let mut ctx = if detect { SerializationContext::new() } else { SerializationContext::without_cycle_detection() };
+                    let mut o = VecDataOutput::new();
+                    for v in &vals { let p = Rc::new(v.clone()); p.serialize_with_context(&mut o, &mut ctx).map_err(es)?; drop(p); }
+                    let total = o.len();
+                    let mut all = o.into_vec();
+                    all.extend_from_slice(tail);
+                    let mut inp = SliceDataInput::new(&all);
+                    let mut dctx = DeserializationContext::new();
+                    let mut res = Ok(());
+                    for (k, v) in vals.iter().enumerate() {
+                        match Rc::<String>::deserialize_with_context(&mut inp, &mut dctx) {
+                            Ok(g) if &*g == v => {}
+                            Ok(g) => { res = Err(format!("temporary {} (cycle detection {}): decoded as {:?}, want {:?} - the context took the new pointer for an earlier one at the same address", k, detect, g, v)); break; }
+                            Err(e) => { res = Err(format!("temporary {} (cycle detection {}): {}", k, detect, e)); break; }
+                        }
+                    }
+                    if res.is_ok() && inp.pos() != total { res = Err(format!("consumed {} of {} bytes", inp.pos(), total)); }
+                    if res.is_err() { if detect { class = Some("smart_ptr_context_address_reuse"); } return res; }
+                }
+                Ok(())
+            }
+            11 => {
+                sp_rt::<Box<u64>, Box<Box<u64>>>(&Box::new(Box::new(i(0))), tail, &|a, b| a == b, "Box<Box<u64>>")?;
+                sp_rt::<Vec<Rc<String>>, Rc<Vec<Rc<String>>>>(&Rc::new(ss.iter().map(|x| Rc::new(x.clone())).collect()), tail, &|a, b| a == b, "Rc<Vec<Rc<String>>>")?;
+                sp_rt::<Option<Box<u32>>, Arc<Option<Box<u32>>>>(&Arc::new(if ints.is_empty() { None } else { Some(Box::new(i(0) as u32)) }), tail, &|a, b| a == b, "Arc<Option<Box<u32>>>")?;
+                let v: Option<Box<Vec<String>>> = if ss.is_empty() { None } else { Some(Box::new(ss.to_vec())) };
+                sp_rt::<Vec<String>, Option<Box<Vec<String>>>>(&v, tail, &|a, b| a == b, "Option<Box<Vec<String>>>")?;
+                sp_rt::<bool, Rc<bool>>(&Rc::new(i(0) % 2 == 1), tail, &|a, b| a == b, "Rc<bool>")?;
+                sp_rt::<i8, Arc<i8>>(&Arc::new(i(0) as i8), tail, &|a, b| a == b, "Arc<i8>")
+            }
             _ => {
                 // pointers as elements of collections / options (SerializableType bridges)
                 let v: Vec<Rc<String>> = ss.iter().map(|x| Rc::new(x.clone())).collect();
@@ -289,7 +395,7 @@ pub fn smart_ptr(cx: &mut Ctx, kind: usize, ints: &[u64], ss: &[String], tail: &
 // ------------------------------------------------------------------------------------------
 // versioned fields
 // ------------------------------------------------------------------------------------------
-fn ver(x: u64) -> Version { Version::new((x >> 32) as u16, (x >> 16) as u16, x as u16) }
+pub fn ver(x: u64) -> Version { Version::new((x >> 32) as u16, (x >> 16) as u16, x as u16) }
 pub fn ver_u64(ma: u16, mi: u16, pa: u16) -> u64 { ((ma as u64) << 32) | ((mi as u64) << 16) | pa as u64 }
 
 /// A record with two versioned fields; the schema version is a type parameter.
@@ -356,6 +462,11 @@ pub fn versioning(cx: &mut Ctx, kind: usize, ints: &[u64], ss: &[String], tail: 
             0 => {
                 let v = ver(i(0));
                 if v.major() > 255 || v.minor() > 255 { class = Some("version_component_over_255"); }
+                let (a, b) = (ver(i(1)), ver(i(2)));
+                let key = |x: &Version| (x.major(), x.minor(), x.patch());
+                if (a >= b) != (key(&a) >= key(&b)) || a.supports_feature(&b) != (key(&a) >= key(&b)) || a.is_compatible_with(&b) != (a.major() == b.major() && key(&a) >= key(&b)) || (a == b) != (key(&a) == key(&b)) {
+                    return Err(format!("order / supports_feature / is_compatible_with of {} and {}", a, b));
+                }
                 if Version::from_u32(v.to_u32()) != v { return Err(format!("from_u32(to_u32({})) = {}", v, Version::from_u32(v.to_u32()))); }
                 stype_rt(&v, tail)
             }
@@ -367,6 +478,11 @@ pub fn versioning(cx: &mut Ctx, kind: usize, ints: &[u64], ss: &[String], tail: 
                 let mut wm = VersionManager::new(w);
                 wm.register_field("f", since);
                 wm.register_field("g", since);
+                // the predicates are the decisions the (de)serialisers take
+                if wm.current_version() != w || wm.reading_version() != w { return Err("current_version() / reading_version() of a new manager".into()); }
+                if wm.should_serialize_field("f") != (w >= since) || !wm.should_serialize_field("unregistered") || w.supports_feature(&since) != (w >= since) {
+                    return Err(format!("writer {} since {}: should_serialize_field = {}, supports_feature = {}", w, since, wm.should_serialize_field("f"), w.supports_feature(&since)));
+                }
                 let mut o = VecDataOutput::new();
                 wm.serialize_field("f", &val, &mut o).map_err(es)?;
                 let l1 = o.len();
@@ -380,7 +496,11 @@ pub fn versioning(cx: &mut Ctx, kind: usize, ints: &[u64], ss: &[String], tail: 
                 let mut rm = VersionManager::new(rd_cur);
                 rm.register_field("f", since);
                 rm.register_field("g", since);
+                if rm.reading_version() != rd_cur { return Err("reading_version() before set_reading_version".into()); }
                 rm.set_reading_version(w);
+                if rm.reading_version() != w || rm.current_version() != rd_cur || rm.should_deserialize_field("f") != (w >= since) || !rm.should_deserialize_field("unregistered") {
+                    return Err(format!("reader told version {}: reading_version() = {}, should_deserialize_field = {}", w, rm.reading_version(), rm.should_deserialize_field("f")));
+                }
                 let mut inp = SliceDataInput::new(&all);
                 let g1: Option<u64> = rm.deserialize_field("f", &mut inp).map_err(es)?;
                 if inp.pos() != l1 { return Err(format!("field f consumed {} bytes, its encoding has {}", inp.pos(), l1)); }
@@ -403,7 +523,10 @@ pub fn versioning(cx: &mut Ctx, kind: usize, ints: &[u64], ss: &[String], tail: 
                 let (w, lo, hi) = (ver(i(0)), ver(i(1)), ver(i(2)));
                 let ranged = i(3) % 2 == 1;
                 let val = s(0);
-                let proxy = if ranged { VersionProxy::with_range(val.clone(), lo, hi) } else { VersionProxy::new(val.clone(), lo) };
+                // built with the old value and changed through data_mut() (or the since_version! macro): what is written is the current value
+                let mut proxy = if ranged { VersionProxy::with_range(format!("old {}", val), lo, hi) } else if i(3) % 4 == 0 { zipora::since_version!(lo, format!("old {}", val)) } else { VersionProxy::new(format!("old {}", val), lo) };
+                *proxy.data_mut() = val.clone();
+                if proxy.data() != &val { return Err("data_mut() did not change data()".into()); }
                 let present = w >= lo && (!ranged || w <= hi);
                 if proxy.should_serialize(&w) != present { return Err(format!("should_serialize({}) = {} for [{}, {:?}]", w, !present, lo, if ranged { Some(hi) } else { None })); }
                 let m = VersionManager::new(w);
